@@ -353,6 +353,11 @@ func registerIntrinsics(in *Interp) {
 		f := a[0].(*Func)
 		code := 0
 		depth := len(in.stack)
+		savedBudget := in.runBudget
+		if in.runBudget == 0 {
+			in.runBudget = in.steps + in.RunSteps
+		}
+		defer func() { in.runBudget = savedBudget }()
 		func() {
 			defer func() {
 				if r := recover(); r != nil {
@@ -369,6 +374,9 @@ func registerIntrinsics(in *Interp) {
 						code = 2
 					case "crash":
 						code = 3
+					case "nonterm":
+						code = 4
+						in.pathNotes = append(in.pathNotes, "no termination: "+pe.msg)
 					default:
 						panic(r)
 					}
